@@ -4,6 +4,7 @@ import (
 	"fmt"
 	"go/constant"
 	"go/types"
+	"hash/fnv"
 	"math/big"
 	"strings"
 )
@@ -11,7 +12,7 @@ import (
 // Env is the evaluation context of a contract expression.
 type Env struct {
 	vars    map[string]Val
-	resolve func(name string) (Val, bool)
+	resolve func(name string, h *Heap) (Val, bool) // source-level locals; address-taken ones are read in heap h
 	heap    *Heap
 	old     *Heap
 	pre     *Heap // state just before a call (callsite clauses); nil otherwise
@@ -58,6 +59,7 @@ func (g *Gen) envLoad(env *Env, p Ptr) Val {
 	var terms []string
 	for _, l := range ls {
 		hn := p.Prefix + l.Path
+		g.noteLeaf(hn, l, len(p.Idx))
 		ht := g.envHeapGet(env, nil, hn, g.heapSort(l.Sort, len(p.Idx)))
 		terms = append(terms, sel(ht, p.Idx...))
 	}
@@ -158,7 +160,7 @@ func (g *Gen) eval(e Expr, env *Env) Val {
 			return v
 		}
 		if env.resolve != nil {
-			if v, ok := env.resolve(x.Name); ok {
+			if v, ok := g.resolveIn(env, x.Name); ok {
 				return v
 			}
 		}
@@ -181,7 +183,7 @@ func (g *Gen) eval(e Expr, env *Env) Val {
 			if _, isVar := env.vars[id.Name]; !isVar {
 				resolved := false
 				if env.resolve != nil {
-					_, resolved = env.resolve(id.Name)
+					_, resolved = g.resolveIn(env, id.Name)
 				}
 				if !resolved && (env.pkg == nil || env.pkg.Scope().Lookup(id.Name) == nil) {
 					if p := g.w.findPackage(env.pkg, id.Name); p != nil {
@@ -344,7 +346,7 @@ func (g *Gen) indexVal(v Val, ie Expr, env *Env) Val {
 	if v.K == kSlice {
 		i := g.toIdx(g.eval(ie, env))
 		et := v.T.Underlying().(*types.Slice).Elem()
-		return g.envLoad(env, Ptr{Prefix: "[]" + g.typeName(et), Idx: []string{v.Arr, g.idxAdd(v.Off, i)}, T: et})
+		return g.envLoad(env, Ptr{Prefix: "[]" + g.typeName(et), Idx: []string{v.Arr, g.elemIdx(v.Off, i)}, T: et})
 	}
 	if v.K == kScalar {
 		switch u := v.T.Underlying().(type) {
@@ -416,7 +418,7 @@ func (g *Gen) sliceVal(v Val, loE, hiE Expr, env *Env) Val {
 		} else {
 			hi = v.Len
 		}
-		return Val{K: kSlice, T: v.T, Arr: v.Arr, Off: g.idxAdd(v.Off, lo), Len: g.idxSub(hi, lo), Cap: g.idxSub(v.Cap, lo)}
+		return Val{K: kSlice, T: v.T, Arr: v.Arr, Off: g.elemIdx(v.Off, lo), Len: g.idxSub(hi, lo), Cap: g.idxSub(v.Cap, lo)}
 	}
 	if v.K == kScalar && isString(v.T) {
 		if hiE != nil {
@@ -579,8 +581,9 @@ func (g *Gen) evalQuant(x *EQuant, env *Env) Val {
 		if isComposite(t) {
 			panic(contractErr("bound variable %s of composite type", b.Name))
 		}
-		g.nfresh++
-		name := quote(fmt.Sprintf("%s!q%d", b.Name, g.nfresh))
+		// bound variables are named by nesting depth, not by a counter: two evaluations of the same formula
+		// then yield the same text, which lets the solver identify them (quantified facts used as atoms)
+		name := quote(fmt.Sprintf("%s!d%d", b.Name, g.inQuant))
 		binders = append(binders, "("+name+" "+g.scalarSort(t)+")")
 		v := sv(t, name)
 		vars[b.Name] = v
@@ -599,6 +602,16 @@ func (g *Gen) evalQuant(x *EQuant, env *Env) Val {
 	for _, tr := range x.Triggers {
 		var ts []string
 		for _, te := range tr {
+			if hc, ok := te.(*ECall); ok && hc.Fn == "has" && len(hc.Args) == 2 {
+				// has(m,k) is `m != nil && dom[m][k]`; only the select is a legal pattern
+				m := g.eval(hc.Args[0], sub)
+				if mt, ok := m.T.Underlying().(*types.Map); ok {
+					k := g.coerce(g.eval(hc.Args[1], sub), mt.Key())
+					dom, _, _, _ := g.mapHeaps(sub, mt)
+					ts = append(ts, sel(dom, m.S, k.S))
+					continue
+				}
+			}
 			tv := g.eval(te, sub)
 			ts = append(ts, g.flatten(tv)...)
 		}
@@ -610,16 +623,66 @@ func (g *Gen) evalQuant(x *EQuant, env *Env) Val {
 	if x.Forall {
 		inner = implies(guard, body)
 	} else {
-		inner = and(guard, body)
+		// witness triggers: wit(k) is true for every k (axiom); it only gives E-matching something to hold on
+		// to when the existential ends up under a negation (as a goal): candidate witnesses are the ground
+		// wit-terms — skolem witnesses of assumed existentials and the index terms the program itself uses.
+		var ws, wp []string
+		if len(pats) == 0 {
+			for _, b := range x.Vars {
+				v := vars[b.Name]
+				if _, ok := intInfoOf(v.T); ok {
+					w := "(" + g.witFn(v.T) + " " + v.S + ")"
+					ws = append(ws, w)
+					wp = append(wp, w)
+				}
+			}
+		}
+		inner = and(append(append([]string{guard}, ws...), body)...)
+		if len(wp) > 0 && len(wp) == len(x.Vars) {
+			pats = append(pats, ":pattern ("+strings.Join(wp, " ")+")")
+		}
 	}
-	if len(pats) > 0 {
-		inner = "(! " + inner + " " + strings.Join(pats, " ") + ")"
+	hh := fnv.New32a()
+	hh.Write([]byte(inner))
+	qid := fmt.Sprintf(":qid q%x_%s", hh.Sum32(), x.Vars[0].Name)
+	if x.Forall && strings.Contains(body, "(exists") {
+		// forall-exists facts feed each other's triggers through their skolem witnesses (matching loops):
+		// make each generation of such instances expensive so that only short chains are explored eagerly
+		qid += fmt.Sprintf(" :weight %d", g.w.feWeight)
 	}
+	inner = "(! " + inner + " " + strings.Join(append(pats, qid), " ") + ")"
 	q := "exists"
 	if x.Forall {
 		q = "forall"
 	}
 	return sv(boolT, "("+q+" ("+strings.Join(binders, " ")+") "+inner+")")
+}
+
+func (g *Gen) witFn(t types.Type) string {
+	s := g.scalarSort(t)
+	name := "wit_Int"
+	if s != "Int" {
+		name = "wit_" + strings.NewReplacer("(", "", ")", "", " ", "", "_", "").Replace(s)
+	}
+	if !g.declared[name] {
+		g.declared[name] = true
+		g.emit(evDecl, fmt.Sprintf("(declare-fun %s (%s) Bool)", name, s))
+		g.emit(evAssert, fmt.Sprintf("(assert (forall ((x %s)) (! (%s x) :pattern ((%s x)) :qid wit_ax)))", s, name, name))
+	}
+	return name
+}
+
+// witness: make the integer term t available as a candidate witness for existential goals.
+func (g *Gen) witness(t string, ty types.Type) {
+	if _, ok := intInfoOf(ty); !ok {
+		return
+	}
+	key := "wit:" + t
+	if g.declared[key] {
+		return
+	}
+	g.declared[key] = true
+	g.emit(evAssert, "(assert ("+g.witFn(ty)+" "+t+"))")
 }
 
 func (g *Gen) evalCall(x *ECall, env *Env) Val {
@@ -630,6 +693,34 @@ func (g *Gen) evalCall(x *ECall, env *Env) Val {
 		return g.eval(x.Args[i], env)
 	}
 	switch x.Fn {
+	case "wit":
+		// wit(e) is true for every e; it exists to be used as a quantifier trigger / to supply ground instances
+		v := arg(0)
+		if v.K == kUntyped {
+			v = g.coerce(v, intT)
+		}
+		return sv(boolT, "("+g.witFn(v.T)+" "+v.S+")")
+	case "before":
+		if env.pre == nil {
+			panic(contractErr("before() is only available in callsite clauses"))
+		}
+		n := *env
+		n.heap = env.pre
+		return g.eval(x.Args[0], &n)
+	case "cur":
+		id, ok := x.Args[0].(*EIdent)
+		if !ok || env.resolve == nil {
+			panic(contractErr("cur(x) needs a local variable name"))
+		}
+		// the variable's storage is read in the heap of the enclosing context (so before(cur(x)) works)
+		v, ok := g.resolveIn(env, id.Name)
+		if !ok {
+			panic(contractErr("contract refers to unknown name %q", id.Name))
+		}
+		return v
+	case "deref":
+		v := arg(0)
+		return g.envLoad(env, g.ptrOf(v))
 	case "len", "cap":
 		v := arg(0)
 		switch {
@@ -763,6 +854,17 @@ func (g *Gen) evalCall(x *ECall, env *Env) Val {
 		return g.applyUFun(u, x, env)
 	}
 	panic(contractErr("unknown function %s in contract", x.Fn))
+}
+
+func (g *Gen) resolveIn(env *Env, name string) (Val, bool) {
+	if env.resolve == nil {
+		return Val{}, false
+	}
+	h := env.heap
+	if h == nil || h.m == nil {
+		h = g.heap0
+	}
+	return env.resolve(name, h)
 }
 
 func (g *Gen) findMacro(env *Env, name string) *Macro {
